@@ -53,6 +53,10 @@ impl TcpTimestamp {
     }
 
     pub fn now(ts_val: u32) -> Self {
+        #[cfg(feature = "verif-hooks")]
+        if let Some(recv_time_ms) = crate::verif_hooks::now_ms_for(ts_val) {
+            return Self { ts_val, recv_time_ms, is_bad_frequency: false };
+        }
         Self { ts_val, recv_time_ms: get_unix_time_ms().unwrap_or(0), is_bad_frequency: false }
     }
 
